@@ -8,6 +8,7 @@ import DimodProofs.VarsKeys
 import DimodProofs.VarsKeysRelabel
 import DimodProofs.VarsObj
 import DimodProofs.VarsObjMixin
+import DimodModel.VarsAlphabet
 
 /-! # C13 — Variables is an order-preserving bijection between labels and indices
 
@@ -654,9 +655,32 @@ example : (VState.ofRange 3).Inv ∧ (VState.ofRange 3).isRange = true ∧
     (((VState.ofRange 3).append (.str "a")).pop.map fun p => p.1.isRange) = some true :=
   ⟨(VState.ofRange_spec 3).1, by decide +kernel⟩
 
+/-- the reflected operators: `other - v` = the labels of `other` (first occurrences) not in `v`; `other | v`,
+    `other & v`, `other ^ v` are `__or__` / `__and__` / `__xor__` themselves (`__ror__ = __or__`, `__rand__ = __and__`,
+    `__rxor__ = __xor__` in `collections.abc.Set`: the labels of `v` come first in `other | v`) -/
+theorem object_set_reflected (k : KState) (h : k.toV.Inv) (o : List PyKey) :
+    ((k.rsub o).toV.Inv ∧ (k.rsub o).toV.abs =
+      (LSpec.extend [] ((o.map PyKey.canon).map some) true).1.filter fun x => !decide (x ∈ k.toV.abs)) ∧
+    ((k.ror o).toV.Inv ∧ (k.ror o).toV.abs = (LSpec.extend [] ((k.toV.abs ++ o.map PyKey.canon).map some) true).1) ∧
+    (∀ x, k.neOther x = !(k.toV.eqOther x.canon)) :=
+  ⟨KState.rsub_abs k h o, KState.ror_abs k h o, fun x => by rw [KState.neOther, KState.eqOther_factors k h]⟩
+
+/-- **the model's alphabet covers the method set of the source**: every `def` / `cpdef` / `cdef` method of
+    `cyVariables`, every method of `class Variables` and every inherited mixin / pickle hook that
+    `harness/translators/vars_methods.py` finds is mapped to a model definition or explicitly out of scope (rendering,
+    serialisation, a helper nothing calls), and no entry of the table is stale.  A method added to (or removed from)
+    the source breaks this theorem. -/
+theorem alphabet_covers_source :
+    (∀ m ∈ Generated.VarsMethods.all, VarsAlphabet.covers m = true) ∧
+    (∀ m ∈ VarsAlphabet.modelled.map Prod.fst ++ VarsAlphabet.outOfScope.map Prod.fst, m ∈ Generated.VarsMethods.all) ∧
+    Generated.VarsMethods.bases = ["cyVariables", "abc.Set[Variable]", "abc.Sequence[Variable]"] := by
+  refine ⟨by decide +kernel, by decide +kernel, by decide +kernel⟩
+
 end C13
 
 section AxiomsR7
+#print axioms C13.object_set_reflected
+#print axioms C13.alphabet_covers_source
 #print axioms C13.object_extend_copy_pickle_factor
 #print axioms C13.object_readers_factor
 #print axioms C13.object_slice_eq_factor
